@@ -32,6 +32,7 @@ RULE = (
     "from origin 1e4} x yaws incl. +-pi and multiples of pi/2 x all four scores x {ego frame, map frame with ego pose}; each pair "
     "also swapped, commonly rotated about the ego and commonly translated; all pairs of integer ROIs with coordinates in 0..4 "
     "(quick) / 0..6 (thorough). non-trivial = pair with overlapping footprints or a defined plane side; distinct = (kind, class, mode, frame)"
+    " Later additions: label pairs vary over the box pairs (incl. unknown / false_positive members), collinear-edge pairs (known finding D16), 2D boxes with a 3D position."
 )
 ASSUMPTIONS = ["positive box sizes, yaw-only rotations, finite numbers", "IoU tolerance 1e-8 absolute, distances 1e-9 + 1e-7 relative"]
 DECIDING = ["MatchingMethod.events_judged", "C06.symmetry_checked", "C06.rotation_checked", "C06.translation_checked", "C06.roi_pairs", "C06.plane_checked", "C06.derived_checked", "C06.collinear_checked", "C06.result_object_checked"]
